@@ -100,3 +100,45 @@ claim(
     note="Histories drawn as lists rather than a RuleBasedStateMachine (same search space, replayable as data); pickling a module after a transform and transforms after track_scales are outside the domain.",
     design_ref="DESIGN.md section 4 C09",
 )
+claim(
+    "C15",
+    technique="Hypothesis-generated module programs run through the real TorchDynamo path of simulate_format, differential (bit-equal) against a reference interpreter with hand-written straight-through quantisation; metamorphic lossless-format identity; pinned random source",
+    text="Generated-input search over programs (linear / attention in every argument spelling, their unit-scaled forms, elementwise ops, norms, adds, reshapes; several root kinds) x format pairs x rounding modes: outputs and every gradient of the transformed module are bit-equal to the reference that quantises exactly the tensor operands of each linear/attention forward and the gradient of its output backward with the caller's formats; E8M23 reproduces the untransformed module bit for bit; simulate_fp8 == E4M3/E5M2 instance; quantise_fwd / quantise_bwd primitive clauses.",
+    note="One known finding (root module class defined in torch.nn is never transformed) is excluded by construction and reported as KNOWN-FINDING; FPFormat.quantise itself is trusted here (C13/C14).",
+    design_ref="DESIGN.md section 4 C15",
+)
+claim(
+    "C16",
+    technique="Hypothesis-generated module programs traced by unit_scale's real TorchDynamo path, differential against an independent reference interpreter that applies the User-Guide recipe on the DSL's own data flow; rewritten-graph node multiset; weight re-initialisation clauses",
+    text="Generated-input search over chains/DAGs of 1-16 mapped and unmapped ops with every add spelling and 0-4 well-nested residual blocks (skip = input, residual output or plain sum), torch.nn wrappers: unit_scale(m) runs, computes the same outputs and gradients as the hand conversion (residual_split/residual_add with tau 0.5 / 0.01, unconstrained plain adds, unconstrained ops after the last residual), leaves the original untouched, re-initialises Linear/Embedding weights to std 1 and biases to 0, honours user replacements first.",
+    note="TorchDynamo capture itself is trusted; float32 rtol 2e-5 (observed bit-equal).",
+    design_ref="DESIGN.md section 4 C16",
+)
+claim(
+    "C17",
+    technique="Hypothesis history generation over transform chains (model-based: snapshot of the original, backend-list model, order-swapped twin, reference interpreter applying each transform once)",
+    text="Generated chains (unit_scale at most once, one format simulation, either order, optional track_scales/compile at the end) on DSL programs and on a block built from unit-scaled layers, each followed by 1-3 forward/backward calls: the original's parameters/attributes/outputs/gradients are unchanged, no storage is shared along the chain, repeated calls are bit-equal, backends hold each transform once with unit scaling first, the result equals the reference interpreter, swapped orders agree bit for bit after parameter synchronisation, track_scales appended changes nothing.",
+    note="Stochastic rounding pinned by substituting torch.randint; compile-terminated chains only in the thorough tier.",
+    design_ref="DESIGN.md section 4 C17",
+)
+claim(
+    "C18",
+    technique="Hypothesis-generated module programs; differential against the untracked module (bit-identity) and against statistics recomputed with numpy from tensors captured by an independent fx.Interpreter with autograd hooks",
+    text="Generated-input search over graphs with fan-out, integer/bool intermediates, list consumers, multiple outputs, forward-only and forward+backward: track_scales changes no output or gradient bit; every float node's recorded mean|x|, |mean x|, std, max|x|, min|x|, numel (forward and backward) equals the statistics of the tensor / total gradient captured independently; backward metrics exist iff a gradient arrived; non-float nodes are uninstrumented; analyse_module leaves gradients bit-equal and annotates the captured standard deviations.",
+    note="Metrics are float32 in the library: rel 1e-4 / abs 1e-7 (+1e-5 x max|x| for the two difference-type statistics).",
+    design_ref="DESIGN.md section 4 C18",
+)
+claim(
+    "C19",
+    technique="Hypothesis-generated tracked graphs pruned five ways, compared with a representative-map model of the expected node list and input sets (networkx reachability for diagnostics); lint; input-graph snapshot",
+    text="Generated-input search: each pruning helper returns a lint-clean graph whose node list (in order) and per-node input sets equal the model computed from the input graph - removed nodes with one float input bypassed wherever they occurred (positional, keyword, nested), selective pruning cutting the edge - and the copying helpers leave their input graph unchanged.",
+    note="Nodes whose 'single float input' status depends on reading (positional vs all inputs) are accepted under either reading.",
+    design_ref="DESIGN.md section 4 C19",
+)
+claim(
+    "C20",
+    technique="Hypothesis differential testing: eager vs torch.compile (aot_eager; inductor in the thorough tier) vs fx.symbolic_trace for every function, module and random compositions",
+    text="Generated-input search: outputs and all gradients of every unit-scaled function (C01's configuration space, 3 dtypes), every module (C08's configurations) and hand-converted DSL compositions agree between eager and compiled execution within dtype tolerance, including distinct forward/backward factors under constraint None; fx.GraphModule forward values equal eager wherever plain fx can trace the op.",
+    note="Stochastic configurations excluded (RNG streams not comparable); inductor sampled only in thorough.",
+    design_ref="DESIGN.md section 4 C20",
+)
